@@ -1,5 +1,5 @@
 """Per-property registration data; bin/mkmanifest turns it into MANIFEST.json."""
-HOOK_COMMITS = ["5816b2c"]
+HOOK_COMMITS = ["5816b2c", "0e6a52c"]
 CHECKS = {
  "C16": dict(
     category="model_checking",
@@ -209,6 +209,22 @@ CHECKS["C02"] = dict(
          "state machine itself is not yet model-checked (planned: DESIGN.md C02 MC); termination is observed per call. Known finding "
          "C02-x12-illegal-character-mid-triplet is open.",
     technique="TLA+ reference decoder (ISO 16022 5.2) + symbol-selection spec; TLC trace validation of exhaustive class-string and seeded encode/decode/read calls")
+CHECKS["C18"] = dict(
+    category="model_checking",
+    text="spec/Conc.tla models the library's shared state at the grain of its own reads and writes (package tables written only during "
+         "initialisation; the Reed-Solomon generator cache as read-length / append / read-entry steps on an object created per call; row "
+         "decoder scratch buffers per reader instance). TLC explores ALL interleavings of 2 (thorough 3) goroutines x programs of 1-2 operations "
+         "and checks NoRace, NoRunPhaseWrite and Deterministic; it must also REJECT the mutated designs (hoisted encoder, shared reader, lazily "
+         "built tables) - a non-vacuity test run on every check. The real library is driven by K = 2..8 (thorough ..64) goroutines with "
+         "private writer / reader instances of all symbologies under the race detector (GOMAXPROCS 2/4/16, randomised start barriers) with "
+         "verif hooks reporting every access to the generator cache, the grid sampler, GF table construction and the 1-D scratch buffers; "
+         "Trace_Conc accepts a run only if every cache / scratch object was touched by one goroutine, package state saw no write, every "
+         "result digest equals the one obtained alone, and the race detector reported nothing.",
+    design_ref="DESIGN.md section 6 C18",
+    note="Trusted: TLC, the Go race detector, Conc.tla. Exhaustive over schedules only on the model; the real code is observed on the "
+         "schedules the Go runtime produced (sampled). Hooks cover the known shared state; other shared state introduced by a change is "
+         "visible to the race detector and to the result comparison only.",
+    technique="TLA+ ownership/interleaving model checked exhaustively by TLC (incl. rejected mutated designs) + trace validation of race-detector runs with access hooks")
 
 NOT_YET = {
 }
